@@ -912,6 +912,22 @@ def clean(out: str) -> str:
     return RE_ENGINE.sub("\x1f", out)
 
 
+class _PlainCatalog:
+    """A catalog that has an entry for every message: plain str results, placeholders kept."""
+
+    def gettext(self, message: str) -> str:
+        return "tr[" + str(message) + "]"
+
+    def ngettext(self, singular: str, plural: str, n: int) -> str:
+        return "tr[" + str(singular if n == 1 else plural) + "]"
+
+    def pgettext(self, context: str, message: str) -> str:
+        return "tr[" + str(message) + "]"
+
+    def npgettext(self, context: str, singular: str, plural: str, n: int) -> str:
+        return "tr[" + str(singular if n == 1 else plural) + "]"
+
+
 class C04(Prop):
     id = "C04"
     title = "Auto-escape: untrusted data never reaches the output unescaped"
@@ -934,7 +950,7 @@ class C04(Prop):
         "SHA-1 of the case"
     )
     assumptions = [
-        "data strings are plain str (never Markup / __html__); translations are the default NullTranslations",
+        "data strings are plain str (never Markup / __html__); translations are the default NullTranslations, or (half of the cases) a catalog whose entries are plain strings",
         "fixed engine-produced markup (<br />, tablerow <tr>/<td> tags) is removed case-insensitively before scanning; "
         "a raw < > ' \" that does not react to swapping the character in the data (fragment of engine markup cut or "
         "re-cased by an author-requested filter) is attributed to the engine, and only tolerated when the program "
@@ -981,6 +997,11 @@ class C04(Prop):
 
     def _render(self, main: str, templates: dict[str, str], data: dict[str, Any], shopify: bool,
                 log: list[list[Any]] | None = None, mode: str = "sync") -> tuple[str, Any]:
+        if len(main.replace("{{ ctl | safe }}", "{{ ctl }}")) % 2 and "translations" not in data:
+            # half of the cases have a real catalog: its entries are plain strings (trusted text, not markup),
+            # unlike the escaped message ids that come back when nothing is translated
+            data = dict(data)
+            data["translations"] = _PlainCatalog()
         env = make_env(templates, shopify=shopify, auto_escape=True,
                        undefined=DebugUndefined if getattr(self, "_undefined", None) == "debug" else None)
         if log is not None:
